@@ -65,6 +65,15 @@ func treeWorkload(c *Ctx, nMut, nGen int, f func(entry, input string)) {
 			idx++
 		}
 	}
+	for _, fam := range gen.WideBrokenFamilies {
+		for _, n := range []int{7, 99, 100, 101, 150, 1500} {
+			if c.Mine(idx) {
+				f(fam.Entry, fam.Make(n))
+				c.Count("wide_broken_inputs", 1)
+			}
+			idx++
+		}
+	}
 	for _, ll := range gen.LongLiterals() {
 		if c.Mine(idx) {
 			f(ll.Entry, ll.Text)
@@ -89,6 +98,9 @@ func treeWorkload(c *Ctx, nMut, nGen int, f func(entry, input string)) {
 	}
 	if ExtraSentences != nil && nGen > 0 {
 		ExtraSentences(c, nGen, f)
+	}
+	if ExtraSentences != nil && nMut > 0 {
+		nearMissWorkload(c, f)
 	}
 	if nMut > 0 {
 		errorWorkload(c, nMut, func(entry, input string) {
@@ -316,8 +328,13 @@ type posInfo struct {
 
 // CheckC05 observes one case. It returns the parse for reuse.
 func CheckC05(c *Ctx, entry, input string) *Parsed {
+	// entries "qpkw:<entry>" belong to the back-quoted pseudo-keyword sub-workload: same check, tagged signatures
+	if strings.HasPrefix(entry, "qpkw:") {
+		c.SigTag = "qpkw"
+		defer func() { c.SigTag = "" }()
+	}
 	c.Journal(entry, input)
-	p := Parse(entry, input)
+	p := Parse(strings.TrimPrefix(entry, "qpkw:"), input)
 	c.Eval()
 	if p.Panic != nil {
 		c.Count("parse_panics_left_to_C03", 1)
@@ -326,8 +343,10 @@ func CheckC05(c *Ctx, entry, input string) *Parsed {
 	clean := p.Err == nil
 	var starts, ends map[int]bool
 	aligned := false
+	// token boundaries are computed whenever the input lexes; misalignment is *reported* only for clean parses,
+	// but it is used for root-cause attribution in error trees too (a bound inherited from a misaligned node)
+	starts, ends, aligned = lexBoundaries(input)
 	if clean {
-		starts, ends, aligned = lexBoundaries(input)
 		c.Count("trees_clean", 1)
 	} else {
 		c.Count("trees_with_error", 1)
@@ -364,7 +383,7 @@ func checkPositions(c *Ctx, entry, input string, infos []astx.Info, clean, align
 		} else {
 			q.rangeBad = !(0 <= q.pos && q.pos <= q.end && q.end <= n)
 		}
-		if clean && aligned && !q.rangeBad {
+		if aligned && !q.rangeBad {
 			q.posMis = !starts[q.pos]
 			q.endMis = !ends[q.end]
 		}
@@ -400,10 +419,10 @@ func checkPositions(c *Ctx, entry, input string, infos []astx.Info, clean, align
 			}
 			continue
 		}
-		if q.posMis && !explainedBy(i, func(ch int) bool { return pi[ch].posMis && pi[ch].pos == q.pos }) {
+		if clean && q.posMis && !explainedBy(i, func(ch int) bool { return pi[ch].posMis && pi[ch].pos == q.pos }) {
 			c.Violate("c05:pos-align:"+tn(i), entry, input, fmt.Sprintf("%s: Pos is not the first byte of a token (%q)", id, ctxAt(input, q.pos)))
 		}
-		if q.endMis && !explainedBy(i, func(ch int) bool { return pi[ch].endMis && pi[ch].end == q.end }) {
+		if clean && q.endMis && !explainedBy(i, func(ch int) bool { return pi[ch].endMis && pi[ch].end == q.end }) {
 			c.Violate("c05:end-align:"+tn(i), entry, input, fmt.Sprintf("%s: End is not one past the last byte of a token (%q)", id, ctxAt(input, q.end)))
 		}
 		// nesting and order of children
@@ -452,6 +471,10 @@ func ctxAt(s string, i int) string {
 
 func RunC05(c *Ctx) {
 	n := 0
+	// sub-workload: back-quoted pseudo-keywords (signatures carry the word, see KNOWN_FINDINGS K4)
+	quotedPKWWorkload(c, func(entry, input, word string) {
+		CheckC05(c, "qpkw:"+entry, input)
+	})
 	treeWorkload(c, c.Pick(150_000, 3_000_000), c.Pick(40_000, 800_000), func(entry, input string) {
 		p := CheckC05(c, entry, input)
 		if p.OK() {
